@@ -120,6 +120,16 @@ func privateOp(op, file string) {
 	}
 }
 
+var schedPanics []string
+
+func takeSchedPanics() []string {
+	privateMu.Lock()
+	defer privateMu.Unlock()
+	out := schedPanics
+	schedPanics = nil
+	return out
+}
+
 func takePrivateFound() []string {
 	privateMu.Lock()
 	defer privateMu.Unlock()
@@ -485,6 +495,9 @@ done:
 	for _, k := range in.Skip {
 		skip[k] = true
 	}
+	for _, f := range takeSchedPanics() {
+		vs = append(vs, core.Violation{Sig: "c14:panic", What: f}, core.Violation{Sig: "c13:panic", What: f})
+	}
 	forked := in.SizeB > 0
 	if forked {
 		// ---- observers (C13) for a split-view server: no two inconsistent signed trees are both accepted ----
@@ -581,7 +594,12 @@ func runLookups(wg *sync.WaitGroup, s *sched.Sched, client, t string, keys []int
 		if private[k] {
 			privateNow.Store(g, fmt.Sprintf("Lookup(%s,%s) by %s", path, vers, t))
 		}
-		lines, err := cl.Lookup(path, vers)
+		lines, err, pan := safeLookup(cl, path, vers)
+		if pan != nil {
+			privateMu.Lock()
+			schedPanics = append(schedPanics, fmt.Sprintf("Lookup(%s,%s) by %s panics: %v", path, vers, t, pan))
+			privateMu.Unlock()
+		}
 		privateNow.Delete(g)
 		done(k, lines, err)
 	}
